@@ -2504,6 +2504,840 @@ fn deep_text(kind: &str, d: usize) -> String {
 }
 
 // ---------------------------------------------------------------------------
+// source (e): grammar-directed FORMS — well-formed statements whose sub-forms are
+// combined systematically
+//   (e1) slot filler: every expression / l-value slot of every statement and built-in
+//        form x every operand shape (literal, variable, CONST, array element of every
+//        declaration style, user function call, undeclared name(args), record field,
+//        element field, every built-in function, operators over calls, wrongly typed
+//        operands), enumerated completely in the main module; every shape (also nested
+//        ones) x {main, SUB body, FUNCTION body} in ten generic slots; plus a random mix
+//        (several statements, nested shapes, all slots at once, inside block bodies);
+//   (e2) declaration soup: DIM / REDIM / CONST / implicit definitions / FOR counters /
+//        parameters of the SAME name in every style (bare, every qualifier, AS every
+//        type), scalar or array, with or without SHARED, same or different number of
+//        dimensions, in the main module and in subprograms: every ordered PAIR is
+//        enumerated, longer random sequences come from a tape.
+// The oracle is check_text, unchanged: nothing about acceptance is asserted.
+// ---------------------------------------------------------------------------
+
+#[derive(Clone, Copy, PartialEq, Eq, Debug)]
+enum Sl {
+    /// numeric expression
+    N,
+    /// string expression
+    S,
+    /// numeric place (assignable)
+    L,
+    /// string place
+    LS,
+}
+
+/// Entities the fillers and templates may mention: (identifier word, prologue line, implementation).
+/// Only the entities a program mentions are declared (short programs, readable witnesses).
+const ENTITIES: &[(&str, &str, &str)] = &[
+    ("Fn", "DECLARE FUNCTION Fn! (N!)", "FUNCTION Fn! (N!)\nFn! = N! + 1\nEND FUNCTION"),
+    ("Fs", "DECLARE FUNCTION Fs$ (N!)", "FUNCTION Fs$ (N!)\nFs$ = STR$(N!)\nEND FUNCTION"),
+    ("Fz", "DECLARE FUNCTION Fz!", "FUNCTION Fz!\nFz! = 1\nEND FUNCTION"),
+    ("Sb", "DECLARE SUB Sb (N!, M$)", "SUB Sb (N!, M$)\nEND SUB"),
+    ("Kn", "CONST Kn = 3", ""),
+    ("Ks", "CONST Ks$ = \"k\"", ""),
+    ("An", "DIM SHARED An(1 TO 9)", ""),
+    ("Ai", "DIM SHARED Ai%(9)", ""),
+    ("A2", "DIM SHARED A2(3, 3)", ""),
+    ("Ax", "DIM SHARED Ax(1 TO 9) AS INTEGER", ""),
+    ("As", "DIM SHARED As$(9)", ""),
+    ("Ay", "DIM SHARED Ay(9) AS STRING", ""),
+    ("Dn", "REDIM SHARED Dn(9)", ""),
+    ("R", "DIM SHARED R AS Card", ""),
+    ("Rs", "DIM SHARED Rs(1 TO 3) AS Card", ""),
+    ("Xl", "DIM SHARED Xl AS LONG", ""),
+    ("Xf", "DIM SHARED Xf AS STRING * 4", ""),
+];
+const CARD_TYPE: &str = "TYPE Card\nValue AS INTEGER\nSuit AS STRING * 5\nEND TYPE";
+
+/// Operand shapes. `<n>` / `<s>` are holes for a numeric / string operand. Labels starting with
+/// "op-" are operators (their holes get call-like operands in the matrix), labels starting with
+/// "x-" are deliberately of the other type or not a value at all.
+const SHAPES_N: &[(&str, &str)] = &[
+    ("lit", "2"),
+    ("lit-float", "2.5"),
+    ("lit-hex", "&H1F"),
+    ("lit-long", "100000"),
+    ("var", "V"),
+    ("var%", "V%"),
+    ("var#", "V#"),
+    ("var-ext", "Xl"),
+    ("const", "Kn"),
+    ("elem", "An(<n>)"),
+    ("elem%", "Ai%(<n>)"),
+    ("elem-2d", "A2(<n>, <n>)"),
+    ("elem-ext", "Ax(<n>)"),
+    ("elem-dyn", "Dn(<n>)"),
+    ("call", "Fn(<n>)"),
+    ("call-qualified", "Fn!(<n>)"),
+    ("call-0", "Fz"),
+    ("undef", "Undef(<n>)"),
+    ("undef%", "Undef%(<n>, <n>)"),
+    ("field", "R.Value"),
+    ("elem-field", "Rs(<n>).Value"),
+    ("len", "LEN(<s>)"),
+    ("len-var", "LEN(V%)"),
+    ("val", "VAL(<s>)"),
+    ("instr", "INSTR(<s>, <s>)"),
+    ("instr3", "INSTR(<n>, <s>, <s>)"),
+    ("ubound", "UBOUND(An)"),
+    ("lbound-dim", "LBOUND(A2, <n>)"),
+    ("eof", "EOF(<n>)"),
+    ("err", "ERR"),
+    ("varptr", "VARPTR(An(<n>))"),
+    ("varseg", "VARSEG(V)"),
+    ("cvd", "CVD(MKD$(<n>))"),
+    ("peek", "PEEK(<n>)"),
+    ("op-paren", "(<n>)"),
+    ("op-neg", "-<n>"),
+    ("op-not", "NOT <n>"),
+    ("op-add", "<n> + <n>"),
+    ("op-mul", "<n> * <n>"),
+    ("op-div", "<n> / <n>"),
+    ("op-mod", "<n> MOD <n>"),
+    ("op-and", "<n> AND <n>"),
+    ("op-lt", "<n> < <n>"),
+    ("op-eq-str", "<s> = <s>"),
+    ("x-str-lit", "\"a\""),
+    ("x-str-elem", "As$(<n>)"),
+    ("x-str-call", "Fs$(<n>)"),
+    ("x-record", "R"),
+    ("x-record-elem", "Rs(<n>)"),
+    ("x-array-name", "An"),
+    ("x-array-parens", "An()"),
+    ("x-call-no-args", "Fn"),
+    ("x-call-too-many", "Fn(<n>, <n>)"),
+    ("x-elem-too-many", "An(<n>, <n>)"),
+    ("x-field-unknown", "R.Nope"),
+    ("x-sub-name", "Sb(<n>)"),
+];
+const SHAPES_S: &[(&str, &str)] = &[
+    ("lit", "\"a\""),
+    ("lit-empty", "\"\""),
+    ("var", "V$"),
+    ("const", "Ks$"),
+    ("var-fixed", "Xf"),
+    ("elem", "As$(<n>)"),
+    ("elem-ext", "Ay(<n>)"),
+    ("call", "Fs$(<n>)"),
+    ("undef", "UndefS$(<n>)"),
+    ("field", "R.Suit"),
+    ("elem-field", "Rs(<n>).Suit"),
+    ("chr", "CHR$(<n>)"),
+    ("str", "STR$(<n>)"),
+    ("left", "LEFT$(<s>, <n>)"),
+    ("right", "RIGHT$(<s>, <n>)"),
+    ("mid", "MID$(<s>, <n>, <n>)"),
+    ("mid2", "MID$(<s>, <n>)"),
+    ("ucase", "UCASE$(<s>)"),
+    ("lcase", "LCASE$(<s>)"),
+    ("ltrim", "LTRIM$(<s>)"),
+    ("rtrim", "RTRIM$(<s>)"),
+    ("space", "SPACE$(<n>)"),
+    ("string", "STRING$(<n>, <s>)"),
+    ("string-code", "STRING$(<n>, <n>)"),
+    ("mkd", "MKD$(<n>)"),
+    ("environ", "ENVIRON$(<s>)"),
+    ("op-paren", "(<s>)"),
+    ("op-concat", "<s> + <s>"),
+    ("x-num-lit", "2"),
+    ("x-num-elem", "An(<n>)"),
+    ("x-num-call", "Fn(<n>)"),
+    ("x-record", "R"),
+    ("x-array-name", "As$"),
+    ("x-call-no-args", "Fs$"),
+    ("x-field-unknown", "R.Nope"),
+];
+const SHAPES_L: &[(&str, &str)] = &[
+    ("var", "V"),
+    ("var%", "V%"),
+    ("var&", "V&"),
+    ("var#", "V#"),
+    ("var-ext", "Xl"),
+    ("elem", "An(<n>)"),
+    ("elem%", "Ai%(<n>)"),
+    ("elem-2d", "A2(<n>, <n>)"),
+    ("elem-ext", "Ax(<n>)"),
+    ("elem-dyn", "Dn(<n>)"),
+    ("field", "R.Value"),
+    ("elem-field", "Rs(<n>).Value"),
+    ("undef", "Undef(<n>)"),
+    ("x-const", "Kn"),
+    ("x-call", "Fn(<n>)"),
+    ("x-call-0", "Fz"),
+    ("x-fn-name", "Fn"),
+    ("x-record", "R"),
+    ("x-array-name", "An"),
+    ("x-array-parens", "An()"),
+    ("x-str-var", "V$"),
+    ("x-builtin", "LEN(V$)"),
+    ("x-lit", "2"),
+    ("x-paren", "(V)"),
+];
+const SHAPES_LS: &[(&str, &str)] = &[
+    ("var", "V$"),
+    ("var-fixed", "Xf"),
+    ("elem", "As$(<n>)"),
+    ("elem-ext", "Ay(<n>)"),
+    ("field", "R.Suit"),
+    ("elem-field", "Rs(<n>).Suit"),
+    ("undef", "UndefS$(<n>)"),
+    ("x-const", "Ks$"),
+    ("x-call", "Fs$(<n>)"),
+    ("x-fn-name", "Fs$"),
+    ("x-num-var", "V"),
+    ("x-builtin", "CHR$(65)"),
+    ("x-lit", "\"a\""),
+    ("x-array-parens", "As$()"),
+];
+
+fn shapes_of(sl: Sl) -> &'static [(&'static str, &'static str)] {
+    match sl {
+        Sl::N => SHAPES_N,
+        Sl::S => SHAPES_S,
+        Sl::L => SHAPES_L,
+        Sl::LS => SHAPES_LS,
+    }
+}
+fn slot_default(sl: Sl) -> &'static str {
+    match sl {
+        Sl::N => "1",
+        Sl::S => "\"a\"",
+        Sl::L => "V",
+        Sl::LS => "V$",
+    }
+}
+
+/// Call-like operands that go into the holes of operators and of the nested matrix.
+const INNER_N: &[&str] = &["An(2)", "Fn(2)", "Undef(2)", "Rs(2).Value", "LEN(As$(2))"];
+const INNER_S: &[&str] = &["As$(2)", "Fs$(2)", "R.Suit", "UndefS$(2)", "CHR$(An(2))"];
+
+/// Fills the holes of `shape` from the two closures (called once per hole, left to right).
+fn fill_holes(shape: &str, mut n: impl FnMut() -> String, mut s: impl FnMut() -> String) -> String {
+    let mut out = String::new();
+    let mut rest = shape;
+    loop {
+        let pn = rest.find("<n>");
+        let ps = rest.find("<s>");
+        let (p, is_n) = match (pn, ps) {
+            (None, None) => {
+                out.push_str(rest);
+                return out;
+            }
+            (Some(a), None) => (a, true),
+            (None, Some(b)) => (b, false),
+            (Some(a), Some(b)) => if a < b { (a, true) } else { (b, false) },
+        };
+        out.push_str(&rest[..p]);
+        let x = if is_n { n() } else { s() };
+        out.push_str(&x);
+        rest = &rest[p + 3..];
+    }
+}
+
+/// The matrix rendering of a shape: plain shapes get literal operands, operators get call-like ones.
+fn shape_plain(label: &str, shape: &str) -> String {
+    if label.starts_with("op-") {
+        let mut k = 0usize;
+        let mut j = 0usize;
+        fill_holes(
+            shape,
+            || {
+                k += 1;
+                INNER_N[(k - 1) % 2].to_string()
+            },
+            || {
+                j += 1;
+                INNER_S[(j - 1) % 2].to_string()
+            },
+        )
+    } else {
+        fill_holes(shape, || "2".to_string(), || "\"a\"".to_string())
+    }
+}
+
+/// Statement and built-in forms with their slots: (name, text with {k} placeholders, slot kinds).
+const TEMPLATES: &[(&str, &str, &[Sl])] = &[
+    ("select/select-subject", "SELECT CASE {0}\nCASE 1\nPRINT 1\nEND SELECT", &[Sl::N]),
+    ("select/select-subject-str", "SELECT CASE {0}\nCASE \"a\"\nPRINT 1\nCASE ELSE\nPRINT 2\nEND SELECT", &[Sl::S]),
+    ("select/case-simple", "SELECT CASE V\nCASE {0}\nPRINT 1\nEND SELECT", &[Sl::N]),
+    ("select/case-simple-str", "SELECT CASE V$\nCASE {0}\nPRINT 1\nEND SELECT", &[Sl::S]),
+    ("select/case-range", "SELECT CASE V\nCASE {0} TO {1}\nPRINT 1\nCASE ELSE\nPRINT 2\nEND SELECT", &[Sl::N, Sl::N]),
+    ("select/case-range-str", "SELECT CASE V$\nCASE {0} TO {1}\nPRINT 1\nEND SELECT", &[Sl::S, Sl::S]),
+    ("select/case-is", "SELECT CASE V\nCASE IS >= {0}\nPRINT 1\nEND SELECT", &[Sl::N]),
+    ("select/case-is-str", "SELECT CASE V$\nCASE IS < {0}\nPRINT 1\nEND SELECT", &[Sl::S]),
+    ("select/case-list", "SELECT CASE V\nCASE {0}, {1}, 5 TO {2}, IS <> {3}\nPRINT 1\nEND SELECT", &[Sl::N, Sl::N, Sl::N, Sl::N]),
+    ("select/case-second-block", "SELECT CASE V\nCASE 1\nPRINT 1\nCASE {0} TO {1}, {2}\nPRINT 2\nCASE ELSE\nPRINT 3\nEND SELECT", &[Sl::N, Sl::N, Sl::N]),
+    ("select/case-body", "SELECT CASE V\nCASE 1\nPRINT {0}\nCASE ELSE\nV = {1}\nEND SELECT", &[Sl::N, Sl::N]),
+    ("if/if-block", "IF {0} THEN\nPRINT 1\nELSEIF {1} THEN\nPRINT 2\nELSE\nPRINT 3\nEND IF", &[Sl::N, Sl::N]),
+    ("if/if-single", "IF {0} THEN V = {1} ELSE V = {2}", &[Sl::N, Sl::N, Sl::N]),
+    ("loop/for-bounds", "FOR I = {0} TO {1} STEP {2}\nPRINT I\nNEXT I", &[Sl::N, Sl::N, Sl::N]),
+    ("loop/for-counter", "FOR {0} = 1 TO 2\nNEXT", &[Sl::L]),
+    ("loop/for-next-counter", "FOR V = 1 TO 2\nNEXT {0}", &[Sl::L]),
+    ("loop/while", "WHILE {0}\nV = V + 1\nWEND", &[Sl::N]),
+    ("loop/do-while", "DO WHILE {0}\nV = V + 1\nLOOP", &[Sl::N]),
+    ("loop/do-until", "DO UNTIL {0}\nLOOP", &[Sl::N]),
+    ("loop/loop-while", "DO\nV = V + 1\nLOOP WHILE {0}", &[Sl::N]),
+    ("loop/loop-until", "DO\nLOOP UNTIL {0}", &[Sl::N]),
+    ("dim/dim-bounds", "DIM Z({0} TO {1})\nZ(1) = 1", &[Sl::N, Sl::N]),
+    ("dim/dim-bounds-2d-ext", "DIM Z(1 TO {0}, {1}) AS INTEGER", &[Sl::N, Sl::N]),
+    ("dim/dim-shared-bounds", "DIM SHARED Z$({0})", &[Sl::N]),
+    ("dim/redim-bounds", "REDIM Dn({0} TO {1})", &[Sl::N, Sl::N]),
+    ("dim/redim-new", "REDIM Z%({0}, {1})", &[Sl::N, Sl::N]),
+    ("dim/redim-ext", "REDIM Z({0}) AS STRING", &[Sl::N]),
+    ("dim/dim-string-len", "DIM Z AS STRING * {0}", &[Sl::N]),
+    ("dim/dim-array-string-len", "DIM Z(3) AS STRING * {0}", &[Sl::N]),
+    ("dim/type-string-len", "TYPE Tz\nF AS STRING * {0}\nEND TYPE", &[Sl::N]),
+    ("const/const-num", "CONST Z = {0}\nPRINT Z", &[Sl::N]),
+    ("const/const-str", "CONST Z$ = {0}\nPRINT Z$", &[Sl::S]),
+    ("assign/assign-num", "V = {0}", &[Sl::N]),
+    ("assign/assign-int", "V% = {0}", &[Sl::N]),
+    ("assign/assign-str", "V$ = {0}", &[Sl::S]),
+    ("assign/assign-place", "{0} = 1", &[Sl::L]),
+    ("assign/assign-place-str", "{0} = \"a\"", &[Sl::LS]),
+    ("assign/assign-elem", "An({0}) = {1}", &[Sl::N, Sl::N]),
+    ("assign/assign-elem-2d", "A2({0}, {1}) = {2}", &[Sl::N, Sl::N, Sl::N]),
+    ("assign/assign-elem-str", "As$({0}) = {1}", &[Sl::N, Sl::S]),
+    ("assign/assign-field", "R.Value = {0}\nR.Suit = {1}", &[Sl::N, Sl::S]),
+    ("assign/assign-elem-field", "Rs({0}).Value = {1}", &[Sl::N, Sl::N]),
+    ("expr/index-in-expr", "V = An({0}) + A2({1}, {2})", &[Sl::N, Sl::N, Sl::N]),
+    ("expr/binary", "V = {0} + {1} * {2}", &[Sl::N, Sl::N, Sl::N]),
+    ("expr/compare", "V = {0} < {1}", &[Sl::N, Sl::N]),
+    ("expr/compare-str", "V = {0} <= {1}", &[Sl::S, Sl::S]),
+    ("expr/logic", "V = {0} OR NOT {1}", &[Sl::N, Sl::N]),
+    ("expr/negate", "V = -{0}", &[Sl::N]),
+    ("expr/paren", "V = ({0})", &[Sl::N]),
+    ("expr/concat", "V$ = {0} + {1}", &[Sl::S, Sl::S]),
+    ("print/print", "PRINT {0}; {1}, {2}", &[Sl::N, Sl::S, Sl::N]),
+    ("print/print-trailing", "PRINT {0};", &[Sl::S]),
+    ("print/lprint", "LPRINT {0}, {1}", &[Sl::N, Sl::S]),
+    ("print/print-using", "PRINT USING {0}; {1}; {2}", &[Sl::S, Sl::N, Sl::N]),
+    ("print/lprint-using", "LPRINT USING {0}; {1}", &[Sl::S, Sl::S]),
+    ("print/print-file", "PRINT #1, {0}; {1}", &[Sl::N, Sl::S]),
+    ("print/print-file-using", "PRINT #1, USING {0}; {1}", &[Sl::S, Sl::N]),
+    ("call/sub-call", "Sb {0}, {1}", &[Sl::N, Sl::S]),
+    ("call/sub-call-paren", "CALL Sb({0}, {1})", &[Sl::N, Sl::S]),
+    ("call/sub-call-by-ref", "Sb {0}, {1}", &[Sl::L, Sl::LS]),
+    ("call/fn-arg", "V = Fn({0})", &[Sl::N]),
+    ("call/fn-arg-by-ref", "V = Fn({0})", &[Sl::L]),
+    ("call/fn-arg-str", "V$ = Fs$({0})", &[Sl::N]),
+    ("call/fn-result", "Hf! = {0}", &[Sl::N]),
+    ("screen/locate", "LOCATE {0}, {1}", &[Sl::N, Sl::N]),
+    ("screen/locate-column", "LOCATE , {0}", &[Sl::N]),
+    ("screen/color", "COLOR {0}, {1}", &[Sl::N, Sl::N]),
+    ("screen/width", "WIDTH {0}, {1}", &[Sl::N, Sl::N]),
+    ("screen/view-print", "VIEW PRINT {0} TO {1}", &[Sl::N, Sl::N]),
+    ("screen/def-seg", "DEF SEG = {0}", &[Sl::N]),
+    ("screen/poke", "POKE {0}, {1}", &[Sl::N, Sl::N]),
+    ("screen/screen", "SCREEN {0}", &[Sl::N]),
+    ("file/open", "OPEN {0} FOR INPUT AS {1}", &[Sl::S, Sl::N]),
+    ("file/open-len", "OPEN {0} FOR RANDOM AS #1 LEN = {1}", &[Sl::S, Sl::N]),
+    ("file/open-access", "OPEN {0} FOR APPEND ACCESS READ AS {1}", &[Sl::S, Sl::N]),
+    ("file/close", "CLOSE {0}, {1}", &[Sl::N, Sl::N]),
+    ("file/get", "GET #1, {0}", &[Sl::N]),
+    ("file/put", "PUT #2, {0}", &[Sl::N]),
+    ("file/field", "FIELD #1, {0} AS {1}, 2 AS W$", &[Sl::N, Sl::LS]),
+    ("file/lset", "LSET {0} = {1}", &[Sl::LS, Sl::S]),
+    ("file/name", "NAME {0} AS {1}", &[Sl::S, Sl::S]),
+    ("file/kill", "KILL {0}", &[Sl::S]),
+    ("file/environ", "ENVIRON {0}", &[Sl::S]),
+    ("input/input", "INPUT {0}, {1}", &[Sl::L, Sl::LS]),
+    ("input/input-file", "INPUT #1, {0}, {1}", &[Sl::L, Sl::LS]),
+    ("input/line-input", "LINE INPUT {0}", &[Sl::LS]),
+    ("input/line-input-file", "LINE INPUT #1, {0}", &[Sl::LS]),
+    ("input/read", "READ {0}, {1}", &[Sl::L, Sl::LS]),
+    ("builtin-fn/chr", "V$ = CHR$({0})", &[Sl::N]),
+    ("builtin-fn/cvd", "V# = CVD({0})", &[Sl::S]),
+    ("builtin-fn/environ-fn", "V$ = ENVIRON$({0})", &[Sl::S]),
+    ("builtin-fn/eof", "V = EOF({0})", &[Sl::N]),
+    ("builtin-fn/instr3", "V = INSTR({0}, {1}, {2})", &[Sl::N, Sl::S, Sl::S]),
+    ("builtin-fn/instr2", "V = INSTR({0}, {1})", &[Sl::S, Sl::S]),
+    ("builtin-fn/lbound", "V = LBOUND(An, {0})", &[Sl::N]),
+    ("builtin-fn/ubound", "V = UBOUND(A2, {0})", &[Sl::N]),
+    ("builtin-fn/bound-of", "V = UBOUND({0}) - LBOUND({1})", &[Sl::L, Sl::LS]),
+    ("builtin-fn/lcase", "V$ = LCASE$({0})", &[Sl::S]),
+    ("builtin-fn/ucase", "V$ = UCASE$({0})", &[Sl::S]),
+    ("builtin-fn/ltrim", "V$ = LTRIM$({0})", &[Sl::S]),
+    ("builtin-fn/rtrim", "V$ = RTRIM$({0})", &[Sl::S]),
+    ("builtin-fn/left", "V$ = LEFT$({0}, {1})", &[Sl::S, Sl::N]),
+    ("builtin-fn/right", "V$ = RIGHT$({0}, {1})", &[Sl::S, Sl::N]),
+    ("builtin-fn/len-str", "V = LEN({0})", &[Sl::S]),
+    ("builtin-fn/len-var", "V = LEN({0})", &[Sl::L]),
+    ("builtin-fn/mid3", "V$ = MID$({0}, {1}, {2})", &[Sl::S, Sl::N, Sl::N]),
+    ("builtin-fn/mid2", "V$ = MID$({0}, {1})", &[Sl::S, Sl::N]),
+    ("builtin-fn/mkd", "V$ = MKD$({0})", &[Sl::N]),
+    ("builtin-fn/peek", "V = PEEK({0})", &[Sl::N]),
+    ("builtin-fn/space", "V$ = SPACE$({0})", &[Sl::N]),
+    ("builtin-fn/str", "V$ = STR$({0})", &[Sl::N]),
+    ("builtin-fn/string-code", "V$ = STRING$({0}, {1})", &[Sl::N, Sl::N]),
+    ("builtin-fn/string-str", "V$ = STRING$({0}, {1})", &[Sl::N, Sl::S]),
+    ("builtin-fn/val", "V = VAL({0})", &[Sl::S]),
+    ("builtin-fn/varptr", "V = VARPTR({0})", &[Sl::L]),
+    ("builtin-fn/varseg", "V = VARSEG({0})", &[Sl::LS]),
+];
+
+/// Templates that also get the nested (depth 2) shapes in the enumerated part.
+const NESTED_TEMPLATES: &[&str] = &["assign/assign-num", "assign/assign-str", "print/print", "select/case-simple", "select/case-simple-str", "if/if-block", "call/sub-call", "dim/dim-bounds", "assign/assign-elem", "loop/for-bounds"];
+
+const FORM_CONTEXTS: &[&str] = &["main", "sub", "function"];
+
+/// Identifier words of a text (letters and digits; qualifiers and dots separate words).
+fn words(text: &str) -> BTreeSet<&str> {
+    text.split(|c: char| !c.is_ascii_alphanumeric()).filter(|w| !w.is_empty()).collect()
+}
+
+/// Wraps the statement(s) under test into a complete program: the declarations of the entities it
+/// mentions, the statement in the main module / a SUB / a FUNCTION, the implementations.
+fn form_program(stmts: &str, ctx: usize) -> String {
+    let ws = words(stmts);
+    let needs_card = ws.contains("R") || ws.contains("Rs") || ws.contains("Card");
+    let mut head = String::new();
+    let mut tail = String::new();
+    let mentioned: Vec<&(&str, &str, &str)> = ENTITIES.iter().filter(|(w, _, _)| ws.contains(w)).collect();
+    // DECLAREs first, then the TYPE, then CONST / DIM
+    for (_, d, imp) in mentioned.iter().filter(|(_, d, _)| d.starts_with("DECLARE")) {
+        head.push_str(d);
+        head.push('\n');
+        tail.push_str(imp);
+        tail.push('\n');
+    }
+    if needs_card {
+        head.push_str(CARD_TYPE);
+        head.push('\n');
+    }
+    for (_, d, _) in mentioned.iter().filter(|(_, d, _)| !d.starts_with("DECLARE")) {
+        head.push_str(d);
+        head.push('\n');
+    }
+    match ctx {
+        0 => format!("{}{}\n{}", head, stmts, tail),
+        1 => format!("{}Host\n{}SUB Host\n{}\nEND SUB\n", head, tail, stmts),
+        _ => format!("{}V = Hf!\n{}FUNCTION Hf!\n{}\nHf! = 1\nEND FUNCTION\n", head, tail, stmts),
+    }
+}
+
+fn render_template(text: &str, fills: &[String]) -> String {
+    let mut s = text.to_string();
+    for (k, f) in fills.iter().enumerate() {
+        s = s.replace(&format!("{{{}}}", k), f);
+    }
+    s
+}
+
+/// The enumerated slot x shape x context space. Calls `f(index, template, slot, shape label, context, text)`.
+fn slot_matrix(mut f: impl FnMut(u64, &str, usize, &str, usize, String) -> bool) {
+    let mut idx = 0u64;
+    for (name, text, slots) in TEMPLATES {
+        for (k, sl) in slots.iter().enumerate() {
+            let mut variants: Vec<(String, String)> = shapes_of(*sl).iter().map(|(l, s)| (l.to_string(), shape_plain(l, s))).collect();
+            let generic = NESTED_TEMPLATES.contains(name);
+            if generic {
+                for (l, s) in shapes_of(*sl) {
+                    if l.starts_with("op-") || !(s.contains("<n>") || s.contains("<s>")) {
+                        continue;
+                    }
+                    for (j, inner) in INNER_N.iter().enumerate() {
+                        let inner_s = INNER_S[j % INNER_S.len()];
+                        variants.push((format!("{}<{}", l, j), fill_holes(s, || inner.to_string(), || inner_s.to_string())));
+                    }
+                }
+            }
+            for (label, operand) in variants {
+                for ctx in 0..FORM_CONTEXTS.len() {
+                    // what a slot does with its operand does not depend on the scope, what an operand resolves to does:
+                    // every slot x shape in the main module, every shape x scope in the generic slots
+                    if ctx > 0 && (!generic || label.contains('<')) {
+                        continue;
+                    }
+                    idx += 1;
+                    let fills: Vec<String> = slots.iter().enumerate().map(|(j, other)| if j == k { operand.clone() } else { slot_default(*other).to_string() }).collect();
+                    let program = form_program(&render_template(text, &fills), ctx);
+                    if !f(idx, name, k, &label, ctx, program) {
+                        return;
+                    }
+                }
+            }
+        }
+    }
+}
+
+/// Random operand of kind `sl` with nesting depth <= d (0 on an exhausted tape: the first, plain shape).
+fn mix_operand(t: &mut Tape, sl: Sl, d: u32) -> String {
+    let table = shapes_of(sl);
+    // wrongly typed shapes are the minority
+    let mut i = t.choose(table.len());
+    if table[i].0.starts_with("x-") && !t.chance(1, 4) {
+        i = t.choose(table.len());
+    }
+    let (_, shape) = table[i];
+    if d == 0 {
+        if shape.contains('<') {
+            return fill_holes(shape, || "2".to_string(), || "\"a\"".to_string());
+        }
+        return shape.to_string();
+    }
+    let mut rest = shape;
+    let mut out = String::new();
+    loop {
+        let pn = rest.find("<n>");
+        let ps = rest.find("<s>");
+        let (p, is_n) = match (pn, ps) {
+            (None, None) => break,
+            (Some(a), None) => (a, true),
+            (None, Some(b)) => (b, false),
+            (Some(a), Some(b)) => if a < b { (a, true) } else { (b, false) },
+        };
+        out.push_str(&rest[..p]);
+        let x = if t.chance(1, 3) { if is_n { "2".to_string() } else { "\"a\"".to_string() } } else { mix_operand(t, if is_n { Sl::N } else { Sl::S }, d - 1) };
+        out.push_str(&x);
+        rest = &rest[p + 3..];
+    }
+    out.push_str(rest);
+    out
+}
+
+/// (e1, random part) 1..3 statements, every slot filled with a random (nested) operand.
+fn gen_slot_mix(t: &mut Tape) -> (String, Vec<&'static str>) {
+    let ctx = t.choose(FORM_CONTEXTS.len());
+    let n = t.range(1, 3);
+    let mut stmts: Vec<String> = vec![];
+    let mut used = vec![];
+    for _ in 0..n {
+        let (name, text, slots) = TEMPLATES[t.choose(TEMPLATES.len())];
+        used.push(name);
+        let fills: Vec<String> = slots.iter().map(|sl| if t.chance(1, 4) { slot_default(*sl).to_string() } else { mix_operand(t, *sl, 2) }).collect();
+        stmts.push(render_template(text, &fills));
+    }
+    // sometimes inside the body of a block
+    let body = stmts.join("\n");
+    let body = match t.choose(12) {
+        7 => format!("IF V THEN\n{}\nELSE\n{}\nEND IF", body, stmts[0]),
+        8 => format!("FOR I = 1 TO 2\n{}\nNEXT", body),
+        9 => format!("SELECT CASE V\nCASE 1\n{}\nCASE ELSE\n{}\nEND SELECT", body, stmts[0]),
+        10 => format!("WHILE V < 1\n{}\nWEND", body),
+        11 => format!("DO\n{}\nLOOP UNTIL V", body),
+        _ => body,
+    };
+    (form_program(&body, ctx), used)
+}
+
+// ----- (e2) declarations of the same name -----
+
+const QUALS: &[&str] = &["", "%", "&", "!", "#", "$"];
+const AS_TYPES: &[&str] = &["INTEGER", "LONG", "SINGLE", "DOUBLE", "STRING", "STRING * 5", "Card"];
+
+/// One way of introducing (or re-introducing) the name `A`.
+#[derive(Clone)]
+struct Decl {
+    /// form kind for the histogram
+    kind: &'static str,
+    text: String,
+    shared: bool,
+    /// the name as this form spells it in later uses (with its qualifier, if any)
+    spelled: String,
+    array: bool,
+}
+
+fn lit_for(q: &str) -> &'static str {
+    if q == "$" { "\"k\"" } else { "1" }
+}
+
+const DECL_KINDS: &[&str] = &["dim-compact", "dim-extended", "dim-array-compact", "dim-array-extended", "redim-compact", "redim-extended", "const", "implicit-assign", "implicit-element", "for-counter"];
+
+/// One declaration form of `name`: `kind` is one of DECL_KINDS, `q` a qualifier (compact forms),
+/// `ty` an AS type (extended forms), `dims` the dimension text (array forms).
+fn one_decl(name: &str, kind: &'static str, q: &str, ty: &str, dims: &str, shared: bool) -> Decl {
+    let sh = if shared { " SHARED" } else { "" };
+    let compact = format!("{}{}", name, q);
+    match kind {
+        "dim-compact" => Decl { kind: if shared { "dim-shared-compact" } else { kind }, text: format!("DIM{} {}", sh, compact), shared, spelled: compact, array: false },
+        "dim-extended" => Decl { kind: if shared { "dim-shared-extended" } else { kind }, text: format!("DIM{} {} AS {}", sh, name, ty), shared, spelled: name.to_string(), array: false },
+        "dim-array-compact" => Decl { kind: if shared { "dim-shared-array-compact" } else { kind }, text: format!("DIM{} {}({})", sh, compact, dims), shared, spelled: compact, array: true },
+        "dim-array-extended" => Decl { kind: if shared { "dim-shared-array-extended" } else { kind }, text: format!("DIM{} {}({}) AS {}", sh, name, dims, ty), shared, spelled: name.to_string(), array: true },
+        "redim-compact" => Decl { kind: if shared { "redim-shared-compact" } else { kind }, text: format!("REDIM{} {}({})", sh, compact, dims), shared, spelled: compact, array: true },
+        "redim-extended" => Decl { kind: if shared { "redim-shared-extended" } else { kind }, text: format!("REDIM{} {}({}) AS {}", sh, name, dims, ty), shared, spelled: name.to_string(), array: true },
+        "const" => Decl { kind, text: format!("CONST {} = {}", compact, lit_for(q)), shared: true, spelled: compact, array: false },
+        "implicit-assign" => Decl { kind, text: format!("{} = {}", compact, lit_for(q)), shared: false, spelled: compact, array: false },
+        "implicit-element" => Decl { kind, text: format!("{}(1) = {}", compact, lit_for(q)), shared: false, spelled: compact, array: true },
+        _ => {
+            // a FOR counter cannot be a string
+            let q = if q == "$" { "" } else { q };
+            Decl { kind: "for-counter", text: format!("FOR {}{} = 1 TO 2\nNEXT", name, q), shared: false, spelled: format!("{}{}", name, q), array: false }
+        }
+    }
+}
+
+/// All single-name declaration forms. `dims` lists the dimension texts used for array forms.
+fn decl_forms(name: &str, dims: &[&str], with_shared: bool) -> Vec<Decl> {
+    let mut v = vec![];
+    let shared_opts: &[bool] = if with_shared { &[false, true] } else { &[false] };
+    for kind in DECL_KINDS {
+        let declares = kind.starts_with("dim") || kind.starts_with("redim");
+        let array = kind.contains("array") || kind.starts_with("redim");
+        let extended = kind.ends_with("extended");
+        for &sh in if declares { shared_opts } else { &[false] } {
+            for d in if array { dims } else { &dims[..1] } {
+                if extended {
+                    for ty in AS_TYPES {
+                        v.push(one_decl(name, kind, "", ty, d, sh));
+                    }
+                } else {
+                    for q in if *kind == "for-counter" { &QUALS[..5] } else { QUALS } {
+                        v.push(one_decl(name, kind, q, "", d, sh));
+                    }
+                }
+            }
+        }
+    }
+    v
+}
+
+/// Parameter forms of the same name (the "first declaration" of a subprogram scope).
+fn param_forms(name: &str) -> Vec<Decl> {
+    let mut v = vec![];
+    for q in QUALS {
+        v.push(Decl { kind: "param-compact", text: format!("{}{}", name, q), shared: false, spelled: format!("{}{}", name, q), array: false });
+        v.push(Decl { kind: "param-array-compact", text: format!("{}{}()", name, q), shared: false, spelled: format!("{}{}", name, q), array: true });
+    }
+    for ty in ["INTEGER", "LONG", "SINGLE", "DOUBLE", "STRING", "Card"] {
+        v.push(Decl { kind: "param-extended", text: format!("{} AS {}", name, ty), shared: false, spelled: name.to_string(), array: false });
+        v.push(Decl { kind: "param-array-extended", text: format!("{}() AS {}", name, ty), shared: false, spelled: name.to_string(), array: true });
+    }
+    v
+}
+
+/// A later use of the name, spelled as the last declaration spelled it.
+fn decl_use(d: &Decl, k: usize) -> String {
+    let n = &d.spelled;
+    let bare = n.trim_end_matches(|c| "%&!#$".contains(c));
+    match k % 8 {
+        0 => String::new(),
+        1 => format!("PRINT {}", n),
+        2 => format!("PRINT {}(1)", n),
+        3 => {
+            if d.array { format!("{}(1) = {}(1)", n, n) } else { format!("{} = {}", n, n) }
+        }
+        4 => format!("PRINT {}", bare),
+        5 => format!("PRINT UBOUND({})", bare),
+        6 => format!("PRINT LEN({})", n),
+        _ => format!("PRINT {}(1, 1)", bare),
+    }
+}
+
+const PAIR_CONTEXTS: &[&str] = &["main+main", "main+sub", "sub+sub", "param+sub", "main+function"];
+
+fn pair_program(first: &Decl, second: &Decl, ctx: usize, use_k: usize) -> String {
+    let needs_card = first.text.contains("Card") || second.text.contains("Card");
+    let head = if needs_card { format!("{}\n", CARD_TYPE) } else { String::new() };
+    let u = decl_use(second, use_k);
+    match ctx {
+        0 => format!("{}{}\n{}\n{}\n", head, first.text, second.text, u),
+        1 => format!("{}{}\nSUB Host\n{}\n{}\nEND SUB\n", head, first.text, second.text, u),
+        2 => format!("{}SUB Host\n{}\n{}\n{}\nEND SUB\n", head, first.text, second.text, u),
+        3 => format!("{}SUB Host ({})\n{}\n{}\nEND SUB\n", head, first.text, second.text, u),
+        _ => format!("{}{}\nFUNCTION Hf!\n{}\n{}\nHf! = 1\nEND FUNCTION\n", head, first.text, second.text, u),
+    }
+}
+
+/// The enumerated space of ordered pairs of declarations of the same name.
+fn decl_pairs(mut f: impl FnMut(u64, &Decl, &Decl, usize, String) -> bool) {
+    let dims: &[&str] = &["1 TO 5", "2, 3"];
+    // the number of dimensions only matters between dynamic arrays: 2-D variants for plain REDIM forms only
+    let keep = |d: &Decl| !(d.text.contains("2, 3") && (d.shared || d.kind.starts_with("dim")));
+    let all: Vec<Decl> = decl_forms("A", dims, true).into_iter().filter(|d| keep(d)).collect();
+    let local: Vec<Decl> = decl_forms("A", dims, false).into_iter().filter(|d| keep(d)).collect();
+    let visible_in_sub: Vec<Decl> = all.iter().filter(|d| d.shared).cloned().collect();
+    let params = param_forms("A");
+    let mut idx = 0u64;
+    for ctx in 0..PAIR_CONTEXTS.len() {
+        let (firsts, seconds): (&[Decl], &[Decl]) = match ctx {
+            0 => (&all, &all),
+            1 => (&visible_in_sub, &local),
+            2 => (&local, &local),
+            3 => (&params, &local),
+            _ => (&visible_in_sub, &local),
+        };
+        for (i, a) in firsts.iter().enumerate() {
+            for (j, b) in seconds.iter().enumerate() {
+                // main+sub and sub+sub are siblings of main+main, main+function one of main+sub: every second / fourth pair
+                if ((ctx == 1 || ctx == 2) && (i + j) % 2 != 0) || (ctx == 4 && (i + j) % 4 != 0) {
+                    continue;
+                }
+                // two SHARED declarations in a row add nothing over SHARED + plain and plain + SHARED
+                if ctx == 0 && a.shared && b.shared && a.kind != "const" && b.kind != "const" {
+                    continue;
+                }
+                idx += 1;
+                // the second REDIM / DIM of a pair gets other bounds than the first (same count)
+                let mut b2 = b.clone();
+                b2.text = b2.text.replace("1 TO 5", "1 TO 8").replace("2, 3", "3, 4");
+                let program = pair_program(a, &b2, ctx, i * 3 + j);
+                if !f(idx, a, &b2, ctx, program) {
+                    return;
+                }
+            }
+        }
+    }
+}
+
+/// Dimension texts by number of dimensions (index 0: one dimension ...).
+const DIMS_BY_COUNT: &[&[&str]] = &[&["1 TO 5", "5", "K9", "V9", "0 TO 0", "-1 TO 1", "1 TO 8"], &["2, 3", "1 TO 2, 1 TO 3", "K9, 2"], &["1, 2, 3", "1 TO 2, 0 TO 1, 3"]];
+
+/// (e2, random part) sequences of declarations and uses of one name (sometimes two), spread over the
+/// main module, a SUB (possibly with the name as a parameter) and a FUNCTION (possibly OF that name).
+/// A theme (style, qualifier / type, scalar or array, number of dimensions) keeps most events of one
+/// program compatible with each other, so that long sequences survive; one event in four deviates freely.
+fn gen_decl_soup(t: &mut Tape) -> (String, Vec<&'static str>) {
+    let names: &[&str] = match t.choose(10) {
+        8 => &["A", "B"],
+        // a dotted name next to a (possibly record) variable of its first part
+        9 => &["A", "A.B"],
+        _ => &["A"],
+    };
+    let mut kinds: Vec<&'static str> = vec![];
+    let theme_q = *t.pick(QUALS);
+    let theme_ty = match theme_q {
+        "%" => "INTEGER",
+        "&" => "LONG",
+        "#" => "DOUBLE",
+        "$" => "STRING",
+        _ => "SINGLE",
+    };
+    let theme_ty = if t.chance(1, 6) { *t.pick(AS_TYPES) } else { theme_ty };
+    let theme_extended = t.chance(1, 2);
+    let theme_array = !t.chance(1, 3);
+    let theme_count = t.choose(3);
+    let theme_dynamic = t.chance(2, 3);
+    let theme_shared = t.chance(1, 2);
+    // [main, subprogram]: has the themed name been declared in this scope (or is it visible there)?
+    let mut declared = [false, false];
+    let mut event = |t: &mut Tape, scope: usize| -> String {
+        let name = *t.pick(names);
+        if t.chance(1, 4) {
+            // free event: any form, any qualifier / type / bounds
+            let kind = *t.pick(DECL_KINDS);
+            let q = *t.pick(QUALS);
+            let ty = *t.pick(AS_TYPES);
+            let count = t.choose(3);
+            let dims = *t.pick(DIMS_BY_COUNT[count]);
+            let shared = t.chance(1, 4);
+            let d = one_decl(name, kind, q, ty, dims, shared);
+            if t.chance(1, 4) {
+                kinds.push("use-free");
+                let k = 1 + t.choose(7);
+                return decl_use(&d, k);
+            }
+            kinds.push(d.kind);
+            return d.text;
+        }
+        let dims = *t.pick(DIMS_BY_COUNT[theme_count]);
+        let shared = scope == 0 && theme_shared;
+        let style = if theme_extended { "extended" } else { "compact" };
+        let was_declared = declared[scope];
+        let kind: &'static str = if theme_array {
+            if !was_declared {
+                match (theme_dynamic, theme_extended) {
+                    (true, true) => "redim-extended",
+                    (true, false) => "redim-compact",
+                    (false, true) => "dim-array-extended",
+                    (false, false) => "dim-array-compact",
+                }
+            } else {
+                // dimension again in either spelling of the theme, or use an element
+                *t.pick(&["redim-compact", "redim-extended", "implicit-element", "implicit-element", "use"])
+            }
+        } else if !was_declared && (theme_extended || t.chance(1, 2)) {
+            if theme_extended { "dim-extended" } else { "dim-compact" }
+        } else {
+            *t.pick(&["implicit-assign", "for-counter", "use", "implicit-assign"])
+        };
+        let _ = style;
+        // after the first declaration the name is spelled as the theme's style demands
+        let q = if theme_extended && was_declared && !kind.starts_with("redim") { "" } else { theme_q };
+        // REDIM of an extended name through the other spelling is the interesting sibling: keep both
+        let kind = if was_declared && kind == "redim-compact" && theme_extended && t.chance(1, 2) { "redim-extended" } else if was_declared && kind == "redim-extended" && !theme_extended && t.chance(1, 2) { "redim-compact" } else { kind };
+        declared[scope] = true;
+        if scope == 0 && shared {
+            declared[1] = true;
+        }
+        let d = one_decl(name, if kind == "use" { "implicit-assign" } else { kind }, q, theme_ty, dims, shared && (kind.starts_with("dim") || kind.starts_with("redim")) && (!was_declared || t.chance(1, 2)));
+        if kind == "use" {
+            kinds.push("use");
+            let k = 1 + t.choose(7);
+            let mut d = d;
+            d.array = theme_array;
+            return decl_use(&d, k);
+        }
+        if t.chance(1, 14) && (d.text.starts_with("DIM") || d.text.starts_with("REDIM")) {
+            kinds.push("multi-dim");
+            let q2 = *t.pick(QUALS);
+            let b = one_decl(name, kind, q2, theme_ty, dims, false);
+            let rest = b.text.trim_start_matches("REDIM ").trim_start_matches("DIM ").to_string();
+            return format!("{}, {}", d.text, rest);
+        }
+        kinds.push(d.kind);
+        d.text
+    };
+    let mut out = String::new();
+    if t.chance(1, 8) {
+        out.push_str(*t.pick(&["DEFINT A-Z\n", "DEFSTR A\n", "DEFLNG A-B\n", "DEFDBL A\n", "DEFSNG A-Z\n"]));
+    }
+    out.push_str(CARD_TYPE);
+    out.push('\n');
+    out.push_str("CONST K9 = 4\nV9 = 3\n");
+    // 0: main module only, 1: + SUB, 2: + FUNCTION, 3: + a FUNCTION of the name itself
+    let which = [0usize, 1, 2, 0, 1, 2, 1, 3][t.choose(8)];
+    let n_main = if which == 0 { t.range(2, 5) } else { t.range(0, 3) };
+    for _ in 0..n_main {
+        let e = event(t, 0);
+        out.push_str(&e);
+        out.push('\n');
+    }
+    if which > 0 {
+        let params = param_forms("A");
+        let p = if t.chance(1, 4) {
+            // a parameter of the theme, or any
+            if t.chance(1, 2) {
+                let q = if theme_extended { "" } else { theme_q };
+                let as_ty = if theme_extended && theme_ty != "STRING * 5" { format!(" AS {}", theme_ty) } else { String::new() };
+                format!(" (A{}{}{})", q, if theme_array { "()" } else { "" }, as_ty)
+            } else {
+                format!(" ({})", params[t.choose(params.len())].text)
+            }
+        } else {
+            String::new()
+        };
+        let stat = if t.chance(1, 6) { " STATIC" } else { "" };
+        let (open, close) = match which {
+            1 => (format!("SUB Host{}{}", p, stat), "END SUB".to_string()),
+            2 => (format!("FUNCTION Hf!{}{}", p, stat), "Hf! = 1\nEND FUNCTION".to_string()),
+            _ => {
+                // a function OF the name
+                let q = *t.pick(QUALS);
+                (format!("FUNCTION A{}{}{}", q, p, stat), format!("A{} = {}\nEND FUNCTION", q, lit_for(q)))
+            }
+        };
+        out.push_str(&open);
+        out.push_str("\nV9 = 3\n");
+        let n_sub = t.range(1, 4);
+        for _ in 0..n_sub {
+            let e = event(t, 1);
+            out.push_str(&e);
+            out.push('\n');
+        }
+        out.push_str(&close);
+        out.push('\n');
+    }
+    (out, kinds)
+}
+
+// ---------------------------------------------------------------------------
 // the run
 // ---------------------------------------------------------------------------
 
@@ -2517,7 +3351,7 @@ impl Prop for C07 {
         "C07"
     }
     fn rule(&self) -> &'static str {
-        "Inputs: (a) random byte strings decoded lossily as UTF-8 (uniform, ASCII-biased, valid head + garbage, UTF-8 edge sequences); (b) token soups over the lexer's alphabet (all keywords, names with every type suffix, numbers, &H/&O literals, every operator/punctuation symbol, strings, comments, blanks/tabs, CR/LF/CRLF, non-ASCII) with category transitions, statement-shaped soups from a noisy grammar over a small name pool, and role/type-consistent programs (variables, arrays, CONSTs, SUBs, FUNCTIONs, TYPE records over the same 8 names) with optional role confusion, conflicting re-declarations and odd literals; (c) token- and byte-level mutations (delete, duplicate, swap, replace, insert, splice) of the repository's own accepted programs and EVERY character-boundary PREFIX of them (quick tier: the first 24 programs of at most 400 chars of each of the 16 shares, thorough: all); (d) nesting 10..300 levels of parentheses, blocks, unary chains, calls/subscripts. Each text is parsed and (if parsed) checked; the outcome must be a program or one error whose position is valid for the text by this module's own line splitter; panics, process death and CPU-watchdog hits are violations. A case is non-trivial when the text is rejected at a position other than (1,1) or accepted with >= 2 top-level statements; distinct by hash of the text."
+        "Inputs: (a) random byte strings decoded lossily as UTF-8 (uniform, ASCII-biased, valid head + garbage, UTF-8 edge sequences); (b) token soups over the lexer's alphabet (all keywords, names with every type suffix, numbers, &H/&O literals, every operator/punctuation symbol, strings, comments, blanks/tabs, CR/LF/CRLF, non-ASCII) with category transitions, statement-shaped soups from a noisy grammar over a small name pool, and role/type-consistent programs (variables, arrays, CONSTs, SUBs, FUNCTIONs, TYPE records over the same 8 names) with optional role confusion, conflicting re-declarations and odd literals; (c) token- and byte-level mutations (delete, duplicate, swap, replace, insert, splice) of the repository's own accepted programs and EVERY character-boundary PREFIX of them (quick tier: the first 24 programs of at most 400 chars of each of the 16 shares, thorough: all); (d) nesting 10..300 levels of parentheses, blocks, unary chains, calls/subscripts; (e) grammar-directed forms: every expression / place slot of every statement and built-in form (SELECT CASE subject, simple / range / IS case items, IF, FOR bounds and counters, loops, DIM / REDIM bounds, string lengths, CONST, assignments, PRINT / USING / file forms, sub and function arguments, every built-in sub and function argument) filled with every operand shape (literal, variable, CONST, element of a compact / extended / dynamic / 2-D array, user function call, undeclared name(args), record field, built-in call, operators over calls, wrongly typed operands) in the main module, a SUB and a FUNCTION (enumerated) plus random multi-statement mixes with nested operands; every ordered pair of declarations of ONE name (DIM / REDIM compact and extended with every qualifier and AS type, scalar / 1-D / 2-D, SHARED or not, CONST, implicit definition, FOR counter, parameter) within and across the main module and subprograms (enumerated) plus random longer declaration sequences with uses, DEFtype and functions of that name. Each text is parsed and (if parsed) checked; the outcome must be a program or one error whose position is valid for the text by this module's own line splitter; panics, process death and CPU-watchdog hits are violations. A case is non-trivial when the text is rejected at a position other than (1,1) or accepted with >= 2 top-level statements; distinct by hash of the text."
     }
     fn assumptions(&self) -> Vec<&'static str> {
         vec![
@@ -2637,6 +3471,96 @@ impl Prop for C07 {
         });
 
         lap("wide", sh);
+        // (e1) slot filler: every slot of every statement form x every operand shape (enumerated)
+        let mut stop = false;
+        let mut n_slot_cases = 0u64;
+        slot_matrix(|idx, name, _slot, label, ctx, text| {
+            n_slot_cases = idx;
+            if !sh.mine(idx) {
+                return true;
+            }
+            sh.class(&format!("slot:{}", name.split('/').next().unwrap_or(name)));
+            let l = label.split('<').next().unwrap_or(label);
+            sh.class(&format!("{}:{}", if label.contains('<') { "shape-nested" } else { "shape" }, l));
+            sh.class(&format!("form-context:{}", FORM_CONTEXTS[ctx]));
+            let r = check_text(sh, "slot-matrix", &text);
+            if !sh.report(r) {
+                stop = true;
+                return false;
+            }
+            true
+        });
+        if stop {
+            return;
+        }
+        if sh.shard == 0 {
+            sh.note("slot_matrix_templates", json!(TEMPLATES.len()));
+            sh.note("slot_matrix_slots", json!(TEMPLATES.iter().map(|(_, _, s)| s.len()).sum::<usize>()));
+            sh.note("slot_matrix_cases", json!(n_slot_cases));
+        }
+        sh.exhaustive("slot matrix: every expression / place slot of every listed statement and built-in form x every operand shape in the main module; every shape x {main, SUB, FUNCTION} in ten generic slots");
+        lap("slot-matrix", sh);
+        // (e1) random mix: several statements, every slot filled, nested operands
+        let n = sh.share(tier.pick(6_000, 120_000));
+        sh.search(9, n, 8, 120, |sh, tape| {
+            let mut t = Tape::new(tape);
+            let (text, used) = gen_slot_mix(&mut t);
+            for u in used {
+                sh.class(&format!("slot:{}", u.split('/').next().unwrap_or(u)));
+            }
+            check_text(sh, "slot-mix", &text)
+        });
+        lap("slot-mix", sh);
+        // (e2) every ordered pair of declarations of the same name (enumerated)
+        let mut n_pair_cases = 0u64;
+        decl_pairs(|idx, a, b, ctx, text| {
+            n_pair_cases = idx;
+            if !sh.mine(idx) {
+                return true;
+            }
+            sh.class(&format!("decl-first:{}", a.kind));
+            sh.class(&format!("decl-second:{}", b.kind));
+            sh.class(&format!("decl-context:{}", PAIR_CONTEXTS[ctx]));
+            let r = check_text(sh, "decl-pairs", &text);
+            if !sh.report(r) {
+                stop = true;
+                return false;
+            }
+            true
+        });
+        if stop {
+            return;
+        }
+        if sh.shard == 0 {
+            sh.note("decl_pair_cases", json!(n_pair_cases));
+        }
+        sh.exhaustive("declaration pairs: every ordered pair of DIM / REDIM / CONST / implicit / FOR / parameter forms of one name (every qualifier, every AS type, scalar / 1-D / 2-D array, SHARED or not) in main+main (not SHARED + SHARED) and param+sub (main+sub, sub+sub: every second pair, main+function: every fourth)");
+        lap("decl-pairs", sh);
+        // (e2) random declaration soup: longer sequences, uses in between, DEFtype, functions of the name
+        let n = sh.share(tier.pick(8_000, 150_000));
+        sh.search(10, n, 8, 80, |sh, tape| {
+            let mut t = Tape::new(tape);
+            let (text, kinds) = gen_decl_soup(&mut t);
+            for k in kinds {
+                sh.class(&format!("decl-soup:{}", k));
+            }
+            check_text(sh, "decl-soup", &text)
+        });
+        lap("decl-soup", sh);
+        // hand-written members of the two families above (kept as fixed witnesses, after the generators, which do not depend on them)
+        if sh.shard == 0 {
+            for text in [
+                "DIM A(1 TO 3)\nA(3) = 5\nX = 4\nSELECT CASE X\nCASE 1 TO A(3)\nPRINT \"in range\"\nCASE ELSE\nPRINT \"out of range\"\nEND SELECT\n",
+                "DECLARE FUNCTION Limit (N)\nX = 4\nSELECT CASE X\nCASE 1 TO Limit(2)\nPRINT \"in range\"\nEND SELECT\nFUNCTION Limit (N)\nLimit = N * 3\nEND FUNCTION\n",
+                "REDIM A(1 TO 5) AS INTEGER\nREDIM A%(1 TO 8)\nA%(8) = 42\nPRINT \"done\"\n",
+                "REDIM A%(1 TO 5)\nREDIM A(1 TO 8) AS INTEGER\n",
+            ] {
+                let r = check_text(sh, "forms-witness", text);
+                if !sh.report(r) {
+                    return;
+                }
+            }
+        }
         // (c) corpus: this worker's share of the accepted programs (loaded once)
         let all = crate::corpus::accepted();
         sh.note("corpus_accepted_programs", json!(if sh.shard == 0 { all.len() } else { 0 }));
@@ -2708,6 +3632,46 @@ impl Prop for C07 {
 
     fn replay(&self, sh: &mut Shard, inputs: &Value) -> Result<(), Violation> {
         // process-death violations carry the journaled text under "journal"
+        if let Some(g) = inputs["matrix"].as_str() {
+            // hand-inspection aid: {"matrix": "slots"|"pairs", "only": "OK"|"lint"|"parse"|"panic"|"", "grep": "text"} prints enumerated programs
+            // (slots: the lit / var columns, or everything that matches a non-empty grep; pairs: every 37th) with index and outcome
+            let only = inputs["only"].as_str().unwrap_or("").to_string();
+            let grep = inputs["grep"].as_str().unwrap_or("").to_string();
+            let mut counts: std::collections::BTreeMap<String, (u64, u64)> = Default::default();
+            let mut show = |key: String, text: String| {
+                let out = match impl_run::front(&text) {
+                    Ok(_) => "OK".to_string(),
+                    Err(e) => format!("{}", e.to_json()),
+                };
+                let e = counts.entry(key.clone()).or_insert((0, 0));
+                e.0 += 1;
+                if out == "OK" {
+                    e.1 += 1;
+                }
+                if !only.is_empty() && out.contains(&only) && (grep.is_empty() || key.contains(&grep) || text.contains(&grep)) {
+                    println!("----- {}\n{}=> {}", key, text, out);
+                }
+            };
+            if g == "slots" {
+                slot_matrix(|i, name, k, label, ctx, text| {
+                    if label == "lit" || label == "var" || !grep.is_empty() {
+                        show(format!("[{}] {}#{} {} {}", i, name, k, label, FORM_CONTEXTS[ctx]), text);
+                    }
+                    true
+                });
+            } else {
+                decl_pairs(|i, a, b, ctx, text| {
+                    if i % 37 == 0 || !grep.is_empty() {
+                        show(format!("[{}] {} > {} {}", i, a.kind, b.kind, PAIR_CONTEXTS[ctx]), text);
+                    }
+                    true
+                });
+            }
+            let total: u64 = counts.values().map(|v| v.0).sum();
+            let ok: u64 = counts.values().map(|v| v.1).sum();
+            println!("{} programs, {} accepted", total, ok);
+            return Ok(());
+        }
         if let Some(g) = inputs["gen"].as_str() {
             // hand-inspection aid: {"gen": "stmts"|"soup"|"bytes", "n": k, "seed": s} prints generated texts with their outcomes
             let n = inputs["n"].as_u64().unwrap_or(20);
@@ -2726,6 +3690,8 @@ impl Prop for C07 {
                     "stmts" => gen_stmts(&mut t),
                     "soup" => gen_soup(&mut t),
                     "typed" => gen_program(&mut t),
+                    "slot-mix" => gen_slot_mix(&mut t).0,
+                    "decl-soup" => gen_decl_soup(&mut t).0,
                     _ => gen_bytes(&mut t).0,
                 };
                 let out = match impl_run::front(&text) {
